@@ -60,7 +60,7 @@ ASSUMPTIONS = [
     "reference CP-ALS / ST-HOSVD / HOOI in mc/props/C18.py and Kruskal / Tucker evaluation, ttm, mttkrp in mc/refmodel.py "
     "(einsum on the explicit array, numpy.linalg.solve / eigh) are correct; they are used for admissibility and for "
     "expanding the returned factors, never as the expected value of a run",
-    "data are explicit small integers; scale factors are powers of two (4, 1/4, 2^-24, 2^20) so that scaling is exact; expanded models are compared "
+    "data are explicit small integers; scale factors are powers of two (4, 1/4, 2^-40, 2^20) so that scaling is exact; expanded models are compared "
     "with 1e-8*max|X|, squared residuals and (1-fit)^2 with 1e-9 (relative to ||X||^2), CP-APR/GCP objectives with "
     "1e-8*max(1,|f|) (DESIGN 4.3)",
     "random starts: numpy's global stream under np.random.seed(s), s from an enumerated alphabet of three seeds; ARPACK's "
@@ -81,7 +81,7 @@ ASSUMPTIONS = [
 ]
 BOUNDS = {
     "quick": "shapes (3,4),(2,3,4),(3,3,3) and the unbalanced order-4 shape (4,2,2,2), maxiters {1,2,3}, seeds {0,1,2}, scale "
-             "{4,1/4,2^-24,2^20}, ALL N! mode permutations for N<=3 (order 4: a generating set of 3 - reversal, rotation, "
+             "{4,1/4,2^-40,2^20}, ALL N! mode permutations for N<=3 (order 4: a generating set of 3 - reversal, rotation, "
              "transposition; all 24 for gcp_opt and for the default tucker_als base).  Storage (every algorithm, every "
              "explicit-start case): dense holder with the widest (int64), the narrowest signed and the narrowest unsigned "
              "integer dtype that hold the values exactly, dense tensor built by growth, and (cp_als, cp_apr) sptensor with "
@@ -603,7 +603,7 @@ def variants(case):
         if kind == "given":
             out += [{"rel": "sparse", "printitn": 0}, {"rel": "sparse", "printitn": 1}]
             out += [{"rel": "print", "printitn": p} for p in (1, 2, 3)]
-            out += [{"rel": "scale", "c": c, "holder": "tensor"} for c in (4.0, 0.25, 2.0 ** -24, 2.0 ** 20)]
+            out += [{"rel": "scale", "c": c, "holder": "tensor"} for c in (4.0, 0.25, 2.0 ** -40, 2.0 ** 20)]
             out += [{"rel": "scale", "c": 4.0, "holder": "sptensor"}]
             out += [{"rel": "relabel", "perm": p, "holder": "tensor"} for p in perms]
             if th:
@@ -630,12 +630,12 @@ def variants(case):
                     {"rel": "print", "printitn": 1, "printinneritn": 0}]
     elif alg == "hosvd":
         out += [{"rel": "print", "verbosity": v} for v in ((1, 3, 10) + ((-1, 6) if th else ()))]
-        out += [{"rel": "scale", "c": c} for c in (4.0, 0.25, 2.0 ** -24, 2.0 ** 20)]
+        out += [{"rel": "scale", "c": c} for c in (4.0, 0.25, 2.0 ** -40, 2.0 ** 20)]
         out += [{"rel": "relabel", "perm": p} for p in perms]
     elif alg == "tucker_als":
         if kind == "given":
             out += [{"rel": "print", "printitn": p} for p in (1, 2, 3)]
-            out += [{"rel": "scale", "c": c} for c in (4.0, 0.25, 2.0 ** -24, 2.0 ** 20)]
+            out += [{"rel": "scale", "c": c} for c in (4.0, 0.25, 2.0 ** -40, 2.0 ** 20)]
             out += [{"rel": "relabel", "perm": p} for p in perms]
         else:
             out += [{"rel": "seed"}, {"rel": "print", "printitn": 1}]
